@@ -160,3 +160,29 @@ Proof.
   intros Hc Hd Ht H1 H2. rewrite (fresh_request_outs st now m a x Ht H1), (fresh_request_outs st' now m a x Ht H2).
   rewrite Hc, Hd. reflexivity.
 Qed.
+
+(* ---------- C10_one_reply_end_to_end ---------- *)
+Lemma seg_count_err len sz e : seg_count len sz = Err e -> sz = 0.
+Proof.
+  unfold seg_count. destruct (len =? 0); [discriminate|]. destruct (sz =? 0) eqn:E; [lia | discriminate].
+Qed.
+
+(* the application's answer given to a transaction that waits for it leaves the device as exactly one frame under the
+   transaction's invoke ID: the answer itself, or — for a ComplexAck that does not fit — its first segment or an Abort *)
+Lemma s_confirmation_one_frame ra t c now :
+  (a_type ra = 2 \/ a_type ra = 3 \/ a_type ra = 5 \/ a_type ra = 6 \/ a_type ra = 7) ->
+  terminal t = false -> 0 < server_segsize t -> s_invoke t = a_invoke ra ->
+  exists fr, h_outs (fst (s_confirmation ra (mkH t [] c now true))) = [Tx fr] /\ a_invoke fr = a_invoke ra /\
+             (a_type ra <> 3 -> fr = ra).
+Proof.
+  intros Hty Hterm Hsz Hinv. destruct_ssm t. unfold terminal in Hterm. cbn [s_state s_invoke] in Hterm, Hinv. subst x_inv.
+  unfold server_segsize in Hsz. cbn [s_dinfo s_maxapdu] in Hsz.
+  unfold s_confirmation, s_abort.
+  path_split_u;
+  try (exfalso; congruence);
+  try (exfalso; lia);
+  try (exfalso; match goal with H : seg_count _ _ = Err _ |- _ => apply seg_count_err in H end; lia);
+  try (exfalso; match goal with H : seg_count _ _ = Ok _ |- _ => pose proof (seg_count_bound _ _ _ (zlen_nonneg _) Hsz H) end; lia);
+  mcbn; cbn [app];
+  (eexists; split; [reflexivity | split; [reflexivity | intros; first [reflexivity | exfalso; lia]]]).
+Qed.
